@@ -8,6 +8,7 @@ package tree
 import (
 	"fmt"
 	"net/http"
+	"slices"
 	"sync"
 
 	"github.com/issue9/errwrap"
@@ -183,6 +184,9 @@ func (tree *Tree[T]) Remove(pattern string, methods ...string) {
 		return
 	}
 
+	n := child
+	old := n.userMethods() // 删除之前已注册的请求方法
+
 	if len(methods) == 0 {
 		child.handlers = nil
 	} else {
@@ -215,7 +219,9 @@ func (tree *Tree[T]) Remove(pattern string, methods ...string) {
 		child = child.parent
 	}
 
-	tree.buildMethods(-1, methods...)
+	// 只有确实被删除的请求方法才减少计数
+	removed := slices.DeleteFunc(old, func(m string) bool { _, found := n.handlers[m]; return found })
+	tree.buildMethods(-1, removed...)
 }
 
 // 此方法主要用于将 locker 的使用范围减至最小。
